@@ -319,4 +319,67 @@ theorem uninstall_removes_the_rest (s : Settings) (live : Live) (recorded : Reco
     · have := uninstall_keeps_modified s live recorded f hf r hr hp hd
       exact (List.mem_filter.1 this).2
 
+/-! ## one process, several operations
+
+`pmerge` handles a package list in one process and env.d may change between two operations (an env.d file of an earlier
+package, `env-update`, the admin's editor — also by rewriting a file in place).  Each operation of the model takes the
+settings env.d holds when it runs (`Op.install s …`, `Op.uninstall s …`); the operations before it — run under whatever
+other settings — pass on nothing but the file system. -/
+
+/-- a history of edits, merges and unmerges, under any settings, keeps the live file system well formed (one file per
+location), so the single-operation theorems apply to the state every operation finds -/
+theorem history_keeps_wf (live : Live) (hwf : LiveWF live) (ops : List Op) :
+    LiveWF (runOps live ops) ∧ ∀ t ∈ traceOps live ops, LiveWF t := by
+  refine ⟨liveWF_runOps ops hwf, ?_⟩
+  induction ops generalizing live with
+  | nil => intro t ht; cases ht
+  | cons op ops ih =>
+    intro t ht
+    rcases List.mem_cons.1 ht with rfl | ht'
+    · exact liveWF_applyOp hwf op
+    · exact ih _ (liveWF_applyOp hwf op) t ht'
+
+/-- **Every merge of a history honours the settings in effect at that merge**: after any history `before` (operations
+under arbitrary, possibly different settings — in particular settings under which `f` was *not* protected), a merge under
+settings `s` leaves every live regular file that `s` protects with the content it had when the merge started. -/
+theorem history_protected_never_overwritten (live : Live) (hwf : LiveWF live) (before : List Op)
+    (s : Settings) (pkg : ICSet) (f : LiveFile) (hf : f ∈ runOps live before) (hprot : s.protectedLoc f.path = true)
+    (hreg : ∀ e ∈ pkg, e.dir = f.dir → e.base = f.base → e.isReg = true)
+    (hsmall : ∀ g ∈ runOps live before, ∀ k fn, parseCfg g.base = some (k, fn) → k < 9999) :
+    Live.lookup (runOps live (before ++ [.install s pkg])) f.dir f.base = some f.content := by
+  rw [runOps_snoc]
+  exact protected_never_overwritten s (runOps live before) pkg (liveWF_runOps before hwf) f hf hprot hreg hsmall
+
+/-- **Every unmerge of a history honours the settings in effect at that unmerge**: a live file the package recorded
+survives iff it is protected under the settings `s` of this operation and differs from the recorded entry — whatever
+settings the earlier operations ran under. -/
+theorem history_uninstall_keeps_modified (live : Live) (before : List Op) (s : Settings) (recorded : Recorded)
+    (f : LiveFile) (hf : f ∈ runOps live before) (r : IEntry)
+    (hr : recorded.find? (fun r => r.dir = f.dir ∧ r.base = f.base) = some r) :
+    (f ∈ runOps live (before ++ [.uninstall s recorded]) ↔
+      (s.protectedLoc f.path = true ∧ (r.isReg = false ∨ r.content ≠ f.content))) := by
+  rw [runOps_snoc]
+  show f ∈ unmergeFs s (runOps live before) recorded ↔ _
+  rw [uninstall_removes_the_rest]
+  constructor
+  · rintro ⟨_, h | ⟨r', hr', hp, hd⟩⟩
+    · have hm := List.mem_of_find?_eq_some hr
+      have hk := List.find?_some hr
+      exact absurd (of_decide_eq_true hk) (h r hm)
+    · rw [hr] at hr'
+      cases hr'
+      exact ⟨hp, hd⟩
+  · rintro ⟨hp, hd⟩
+    exact ⟨hf, Or.inr ⟨r, hr, hp, hd⟩⟩
+
+/-- the stale-settings scenario: `/srv/conf/site.conf` is merged while env.d does not protect `/srv/conf`, the admin
+edits it and adds `/srv/conf` to CONFIG_PROTECT, the next merge of the same process keeps the edit and parks the update -/
+example :
+    let s0 : Settings := ⟨"/r".toList, [], [], [], fun _ => false⟩
+    let s1 : Settings := ⟨"/r".toList, ["/srv/conf".toList], [], [], fun _ => false⟩
+    let pkg (c : Content) : ICSet := [⟨"/r/srv/conf".toList, "site.conf".toList, true, c⟩]
+    runOps [] [.install s0 (pkg 1), .edit [⟨"/r/srv/conf".toList, "site.conf".toList, 7⟩], .install s1 (pkg 2)] =
+      [⟨"/r/srv/conf".toList, "site.conf".toList, 7⟩, ⟨"/r/srv/conf".toList, "._cfg0000_site.conf".toList, 2⟩] := by
+  decide +kernel
+
 end Pkgcore.C21
